@@ -78,6 +78,11 @@ def recursion_templates(atoms: list) -> Iterator[RefGrammar]:
     yield RefGrammar({"<start>": Star(Seq((Rep(NT("<x>"), 1, 2), Lit("-")))), "<x>": Alt((a, b))})  # nested repetitions
     yield RefGrammar({"<start>": Seq((NT("<x>"), Opt(NT("<start>")))), "<x>": Alt((a, Lit("ab"), Rx("a*b")))})
     yield RefGrammar({"<start>": Alt((Seq((NT("<start>"), Opt(a))), b))})  # left recursion with nullable tail
+    # derivation cycles: a symbol derives itself without consuming input (infinitely many derivations per word)
+    yield RefGrammar({"<start>": Alt((Seq((NT("<start>"), NT("<start>"))), a, Lit("")))})
+    yield RefGrammar({"<start>": Alt((NT("<y>"), a)), "<y>": Alt((NT("<start>"), b))})           # unit cycle through two symbols
+    yield RefGrammar({"<start>": Alt((NT("<start>"), a))})                                          # unit cycle on one symbol
+    yield RefGrammar({"<start>": Alt((Seq((NT("<x>"), NT("<start>"))), a)), "<x>": Opt(b)})       # cycle through a nullable neighbour
     yield RefGrammar({"<start>": Seq((Star(Star(a)), b))})
     yield RefGrammar({"<start>": Seq((Plus(Plus(a)), b))})
     yield RefGrammar({"<start>": Seq((Star(Rx("a*")), b))})
@@ -165,7 +170,54 @@ def features(g: RefGrammar) -> list:
         walk(body, False)
         if _left_recursive(g, name):
             feats.add("left_recursion")
+        if _derivation_cycle(g, name):
+            feats.add("derivation_cycle")
     return sorted(feats)
+
+
+def _derivation_cycle(g: RefGrammar, name: str) -> bool:
+    """name =>+ name without consuming input: a production of name (transitively) has an occurrence of name whose
+    whole context can derive the empty string (unit cycles, <a> ::= <a> <a> | "", ...).  Such a grammar gives every
+    word of the symbol infinitely many derivations."""
+    from mc.refgrammar import WordMatcher
+
+    wm = WordMatcher(g, "" if not g.binary else b"")
+
+    def nullable(n) -> bool:
+        return 0 in _ends_solved(wm, n)
+
+    def alone(n) -> set:
+        """nonterminals X such that n =>* X (everything around X derives the empty string)"""
+        if isinstance(n, NT):
+            return {n.name}
+        if isinstance(n, Seq):
+            out = set()
+            for i, x in enumerate(n.items):
+                if all(nullable(y) for j, y in enumerate(n.items) if j != i):
+                    out |= alone(x)
+            return out
+        if isinstance(n, Alt):
+            return set().union(*[alone(x) for x in n.items]) if n.items else set()
+        if isinstance(n, Opt):
+            return alone(n.x)
+        if isinstance(n, (Star, Plus)):
+            return alone(n.x)
+        if isinstance(n, Rep):
+            return alone(n.x) if (n.hi is None or n.hi >= 1) and (n.lo <= 1 or nullable(n.x)) else set()
+        return set()
+
+    seen, todo = set(), [name]
+    while todo:
+        cur = todo.pop()
+        if cur not in g.rules:
+            continue
+        for f in alone(g.rules[cur]):
+            if f == name:
+                return True
+            if f not in seen:
+                seen.add(f)
+                todo.append(f)
+    return False
 
 
 def _ends_solved(wm, n):
